@@ -23,7 +23,7 @@ def main(tier, only=None):
                     shapes.append(('hx_dbs', [n, m, k], 'n%d/%s/m%d' % (n, op, m)))
             else:
                 shapes.append(('hx_dbs', [n, 0, k], 'n%d/%s' % (n, op)))
-        for op in range(3):
+        for op in range(6):        # (non-const operator[] is noexcept and grows: an impossible position ends in std::terminate by design)
             if n <= 16:
                 shapes.append(('hx_dbs_far', [n, op], 'n%d/far%d' % (n, op)))
     for n in ([64, 65] if tier == 'quick' else [63, 64, 65, 70, 128]):
